@@ -1,6 +1,7 @@
 // Overlaid as a child module of flipdot_core::message. C04 (Frame -> Message -> Frame identity and the
 // protocol code table) and the message leg of C05 (Message -> Frame -> Message identity).
 // All harnesses are loop-free over the full input domain: any address, any type, any data of length 0..=255.
+#![allow(dead_code, unused_imports, unused_variables, unused_results)]
 use super::*;
 
 /// The protocol table, transcribed independently of both conversion functions (a third copy).
